@@ -412,12 +412,7 @@ func checkEntry(t *testing.T, c Case) harness.Verdict {
 	return v
 }
 
-func issuerNameOfP(w *World, c *Case) pki.Name {
-	if c.PreIssuer {
-		return w.PISubject
-	}
-	return w.IName
-}
+func issuerNameOfP(w *World, c *Case) pki.Name { return w.IssuerOfP }
 
 var Entry = harness.Define(harness.Opts{
 	Name:     "entry",
